@@ -229,7 +229,7 @@ def run(ctx):
     # hand-written targets the grammar does not produce: container subclasses whose constructor validates, and dataclasses that
     # merely INHERIT a validating hook (plain subclass, subclass with more fields, subclass of a bound generic)
     from .. import special
-    for idx, (desc, ST, vals) in enumerate(special.container_subclass_cases() + special.inherited_hook_cases() + special.protocol_cases() + special.attribute_tagged_cases() + special.tuple_layout_cases()):
+    for idx, (desc, ST, vals) in enumerate(special.container_subclass_cases() + special.inherited_hook_cases() + special.protocol_cases() + special.attribute_tagged_cases() + special.tuple_layout_cases() + special.unhashable_key_cases()):
         if idx % ctx.nshards != ctx.shard or not ctx.want('special', idx):
             continue
         for v in vals:
